@@ -519,6 +519,43 @@ def gfmarg_targets():
     return out
 
 
+def xfvar_targets():
+    """aipw_calculator, difference measure, unweighted, with `splits`: the loop over the parts (which per-part aggregate of which
+    elementwise expression in y1s, y0s, estimate), the aggregate over the parts and the final divisor."""
+    fn = find_function(ast.parse(open(CUTILS).read()), 'aipw_calculator')
+    loops = [n for n in ast.walk(fn) if isinstance(n, ast.For) and ast.unparse(n.iter) == 'set(splits)'
+             and any('var_rd.append' in ast.unparse(b) for b in n.body)]
+    if len(loops) != 1:
+        raise TranslateError('expected one `for i in set(splits)` loop filling var_rd in aipw_calculator, found %d' % len(loops))
+    loop = loops[0]
+    sub, app = {}, None
+    for st in loop.body:
+        u = ast.unparse(st)
+        if isinstance(st, ast.Assign) and u in ('y1s = y1[splits == i]', 'y0s = y0[splits == i]'):
+            sub[st.targets[0].id] = True
+        elif isinstance(st, ast.Expr) and u.startswith('var_rd.append('):
+            app = st.value.args[0]
+        else:
+            raise TranslateError('statement `%s` in the split-variance loop of aipw_calculator' % u[:60])
+    if set(sub) != {'y1s', 'y0s'} or app is None:
+        raise TranslateError('split-variance loop of aipw_calculator changed shape')
+    if not (isinstance(app, ast.Call) and ast.unparse(app.func) == 'np.var' and len(app.args) == 1
+            and {k.arg: ast.unparse(k.value) for k in app.keywords} == {'ddof': '1'}):
+        raise TranslateError('per-part aggregate is %s' % ast.unparse(app))
+    tr = FnTranslator('xf_term', ['y1s', 'y0s', 'estimate'])
+    term = emit(tr.expr(app.args[0]), 'Q')
+    fin = [n for n in ast.walk(fn) if isinstance(n, ast.Assign) and ast.unparse(n.targets[0]) == 'var'
+           and 'var_rd' in ast.unparse(n.value)]
+    if len(fin) != 1 or ast.unparse(fin[0].value) != 'np.mean(var_rd) / y.shape[0]':
+        raise TranslateError('the partition variance is no longer np.mean(var_rd) / y.shape[0]: %s'
+                             % (ast.unparse(fin[0].value) if fin else 'missing'))
+    txt = ('(* a part: the (y1, y0) pseudo-outcome pairs of its rows; n: y.shape[0] *)\n'
+           'Definition xf_term_Q (v_y1s v_y0s v_estimate : Q) : Q :=\n  %s.\n'
+           'Definition xf_aipw_var_Q (v_estimate : Q) (parts : list (list (Q * Q))) (n : Q) : Q :=\n'
+           '  meanq (map (fun part => var_ddof1 (map (fun p => xf_term_Q (fst p) (snd p) v_estimate) part)) parts) / n.' % term)
+    return [RawTarget('xf_aipw_var', txt, ['estimate', 'parts', 'n'], ['variance'])]
+
+
 GROUPS = {
     'tmle': tmle_targets,
     'calc': calc_targets,
@@ -530,6 +567,7 @@ GROUPS = {
     'pbounds': bounds_clip_targets,
     'wprod': wprod_targets,
     'gfmarg': gfmarg_targets,
+    'xfvar': xfvar_targets,
 }
 
 
@@ -544,7 +582,7 @@ def generate(groups=None):
         try:
             ts = fn()
             r = HEADER_R + '\n' + '\n\n'.join(t.coq() for t in ts) + '\n'
-            q = HEADER_Q + ('From Zepid Require Import Base.QSum Base.QAgg.\n' if g in ('pool', 'gfmarg') else '') + '\n' + '\n\n'.join(t.coq_q() for t in ts) + '\n'
+            q = HEADER_Q + ('From Zepid Require Import Base.QSum Base.QAgg.\n' if g in ('pool', 'gfmarg') else '') + ('From Zepid Require Import Base.QSum Base.QAgg Base.Rows Model.Estimators.\n' if g == 'xfvar' else '') + '\n' + '\n\n'.join(t.coq_q() for t in ts) + '\n'
             side[g] = [t.sidecar() for t in ts]
             err = None
         except (TranslateError, SyntaxError, OSError) as e:
